@@ -9,12 +9,14 @@ FAMS=[
   "C07-F3 family (RRSIG signer name not tied to the zone of the RRset; ancestor signer names are accepted, RFC 4035 5.3.1): every violation whose shrunk fault set contains a cross-zone signature, at any observation point (validator, server AD/CD, DnssecClient, validating Recursor)"),
  ("C07-FAM2","F6", P+r"(?:false-denial|unauthenticated-denial|insecure-in-signed-zone|false-denial-served|served-forged-to-cd0|bogus-denial-served|bogus-zone-data-served)", kind_re(["replay-other","fake-insecure-delegation:replayed-nx-denial","fake-insecure-delegation:replayed-nx-denial-noerror","flip-rcode:toggle"])+r"|answer\|fake-insecure-delegation",
   "C07-F6/F12 family (= C09-F1: NSEC3 wrap-around cover test inverted so the last NSEC3 of any chain covers every hash, apex NODATA arm, Opt-Out span accepted as name error): a replayed genuine denial / a toggled rcode is accepted as authenticated denial or as DS-absence proof; every denial-side or insecure-side violation whose shrunk fault set contains replay-other, fake-insecure-delegation:replayed-nx-denial(-noerror) or flip-rcode:toggle"),
- ("C07-FAM3","F7", P+r"(?:unauthenticated-denial|insecure-in-signed-zone|served-forged-to-cd0)", kind_re(["fake-cut","inject-forged"]),
+ ("C07-FAM3","F7", P+r"(?:unauthenticated-denial|insecure-in-signed-zone|served-forged-to-cd0|false-denial-served|bogus-denial-served|bogus-zone-data-served)", kind_re(["fake-cut","inject-forged"]),
   "C07-F7 family (zone cut located with unvalidated NS probes, unsigned records in a signed zone marked Insecure after the zone's own genuine NODATA proof for DS): every insecure-side violation whose shrunk fault set contains a fake cut or injected unsigned records"),
  ("C07-FAM4","F10", P+r"(?:unauthenticated-denial|false-denial|false-denial-served|served-forged-to-cd0)", r"irrelevant-answer\|.*|"+kind_re(["alter-bit:data","drop:data","replace-genuine:data:foreign-owner","alter-bit","drop","replace-genuine"]).replace("(?::[a-z0-9-]+)*","",1) ,
   "C07-F10 family (the validator never checks that a response answers the question): an answer section left without the data asked for (record dropped, owner/rdata altered, foreign records) is returned as 'no data' instead of an error; every denial-side violation with outcome irrelevant-answer, or whose shrunk fault set alters/drops/replaces the answer's data record"),
  ("C07-FAM5","F11d", P+r"(?:secure-not-genuine|served-forged-to-cd0)", r"dnskey:not-in-zone-data\|.*|answer\|(?:replace-genuine:dnskey:rdata|alter-bit:dnskey)",
   "C07-F11d family (a DNSKEY RRset is accepted without a valid RRSIG when every key in it matches a DS / the anchor; anchors matched by key bytes regardless of owner): a key set that is not the zone's (keys dropped, altered, planted) is Secure"),
+ ("C07-FAM6","F13", P+r"(?:false-denial|unauthenticated-denial|insecure-in-signed-zone)", r"[^|]+\|via-history\|(?:tampered-step|honest-step-after-tampering)(?:\|do0)?",
+  "C07-F13 family (the validation cache keeps a downgraded verdict): after one tampered exchange made an RRset Insecure / an unauthenticated denial pass (families 2-4), the verdict is served from ValidationCache to later steps on the same validator, and a tampered step after an honest one reuses cached key material; every denial-side or insecure-side violation that needs the history to show (shrinks to two or more steps). Secure-side via-history signatures are not covered"),
 ]
 if __name__=="__main__":
     allsig=json.load(open('/var/tmp/c07sweep/all.json'))
